@@ -345,6 +345,8 @@ def run(chk: Check):
     rule_p3(chk, ix, ir)
     rule_p4(chk, ix, tr.interp)
     rule_p5(chk, ix)
+    from .c02 import rule_path_literal_gate
+    rule_path_literal_gate(chk)  # every quoted word of a command is first tried as a string literal: the p-prefix gate runs on it
     from .c01 import rule_result_span
     rule_result_span(chk, ir)
     # every bracket form must stay reachable through the look-aheads in front of it, and adjacency compares columns that
